@@ -162,12 +162,20 @@ fn run_case(rng: &mut Rng, s: &mut Sink, len: u64) {
                 s.emit("rm", format!("rm {} {}", hex(&k), g(tag)), format!("ok{}", sut.tail()));
             }
             75..=79 => {
+                let before: Vec<(Vec<u8>, usize)> = sut.cache.verif_entries().iter().map(|e| (e.1.clone(), e.4)).collect();
                 sut.cache.evict_entries();
                 s.emit("evict", "evict".into(), format!("ok{}", sut.tail()));
                 let st = sut.cache.stats();
                 let mem = sut.stats.cache_memory.load(Ordering::Relaxed);
                 if mem > st.low_watermark {
                     s.oracle.push(format!("case={} line={} eviction left usage {} above the low watermark {}", s.cases, s.lines, mem, st.low_watermark));
+                }
+                // the sweep stops as soon as usage is at or below the low watermark: the entry evicted last was needed,
+                // so at least one evicted entry would lift usage above the watermark again
+                let after: std::collections::HashSet<Vec<u8>> = sut.cache.verif_entries().iter().map(|e| e.1.clone()).collect();
+                let evicted: Vec<&(Vec<u8>, usize)> = before.iter().filter(|e| !after.contains(&e.0)).collect();
+                if !evicted.is_empty() && evicted.iter().all(|e| mem + e.1 <= st.low_watermark) {
+                    s.oracle.push(format!("case={} line={} the sweep evicted more than it needed: usage {} is so far below the low watermark {} that any one of the {} evicted entries (largest {} bytes) could have stayed", s.cases, s.lines, mem, st.low_watermark, evicted.len(), evicted.iter().map(|e| e.1).max().unwrap_or(0)));
                 }
             }
             80..=81 => {
